@@ -30,6 +30,7 @@ import (
 	"com.tuntun.rangers/node/src/consensus/model"
 	"com.tuntun.rangers/node/src/consensus/vrf"
 	"com.tuntun.rangers/node/src/middleware/types"
+	"golang.org/x/crypto/sha3"
 	"verif/harness/hx"
 	"verif/harness/hxnode"
 )
@@ -68,6 +69,31 @@ func exec(line string) string {
 	case "sha512":
 		d := sha512.Sum512(hb(1))
 		return hx.Hex(d[:])
+	case "sha3":
+		d := sha3.Sum256(hb(1))
+		return hx.Hex(d[:])
+	case "cdelta":
+		ns, _ := strconv.ParseInt(w[1], 10, 64)
+		before := time.Unix(1700000000, 0)
+		return strconv.Itoa(logical.CalDeltaByTime(before.Add(time.Duration(ns)), before))
+	case "vmsg":
+		d, _ := strconv.Atoi(w[2])
+		return hx.Hex(logical.VerifC16GenVrfMsg(hb(1), d))
+	case "vbt": // verifyBlockVRF with the message built by the node itself from pre.Random and the two block times
+		thr, _ := u(w[1])
+		setThreshold(thr)
+		ns, _ := strconv.ParseInt(w[5], 10, 64)
+		h, _ := u(w[6])
+		wm, _ := u(w[7])
+		t, _ := u(w[8])
+		tq, _ := u(w[9])
+		ptq, _ := u(w[10])
+		before := time.Unix(1700000000, 0)
+		pre := &types.BlockHeader{Random: hb(4), CurTime: before, TotalQN: ptq, Height: h - 1}
+		bh := &types.BlockHeader{ProveValue: new(big.Int).SetBytes(hb(3)), CurTime: before.Add(time.Duration(ns)), TotalQN: tq, Height: h}
+		castor := &model.MinerInfo{VrfPK: vrf.VRFPublicKey(hb(2)), WorkingMiners: wm}
+		ok, err := logical.VerifC16VerifyBlockVRF(bh, pre, castor, t)
+		return vbvResult(ok, err)
 	case "pad":
 		return hx.Hex(ed25519.VerifC16TryZeroPadding(hb(1))) + " " + hx.Hex(logical.VerifC16TryZeroPadding(hb(1)))
 	case "transport":
@@ -99,6 +125,8 @@ func exec(line string) string {
 		return hx.Hex(c[:])
 	case "smulb":
 		return hx.Hex(smulBase(hb(1)))
+	case "smul": // GeScalarMult (sliding window) on FromBytes(a), decode flag ignored like ECVRFVerify does for pk
+		return hx.Hex(scalarMult(hb(1), hb(2)))
 	case "prove":
 		sk := hb(1)
 		pi, err := vrf.VRFGenProve(nil, vrf.VRFPrivateKey(sk), hb(2))
@@ -154,21 +182,25 @@ func exec(line string) string {
 		bh := &types.BlockHeader{ProveValue: new(big.Int).SetBytes(hb(3)), CurTime: now, TotalQN: tq, Height: h}
 		castor := &model.MinerInfo{VrfPK: vrf.VRFPublicKey(hb(2)), WorkingMiners: wm}
 		ok, err := logical.VerifC16VerifyBlockVRF(bh, pre, castor, t)
-		switch {
-		case ok:
-			return "ok"
-		case err == nil:
-			return "false"
-		case err == ed25519.ErrDecodeError:
-			return "err-decode"
-		case err.Error() == "proof not satisfy":
-			return "not-satisfy"
-		case strings.HasPrefix(err.Error(), "qn error"):
-			return "qn-error"
-		}
-		return "err-other " + strings.ReplaceAll(err.Error(), " ", "_")
+		return vbvResult(ok, err)
 	}
 	return "bad-op"
+}
+
+func vbvResult(ok bool, err error) string {
+	switch {
+	case ok:
+		return "ok"
+	case err == nil:
+		return "false"
+	case err == ed25519.ErrDecodeError:
+		return "err-decode"
+	case err.Error() == "proof not satisfy":
+		return "not-satisfy"
+	case strings.HasPrefix(err.Error(), "qn error"):
+		return "qn-error"
+	}
+	return "err-other " + strings.ReplaceAll(err.Error(), " ", "_")
 }
 
 // setThreshold makes Proposal025Block + GetRewardBlocks() equal thr (thr >= reward blocks).
@@ -341,6 +373,38 @@ func (g *gen) primitives(n int) {
 		if r.Chance(1, 2) {
 			g.do("funi " + hx.Hex(b))
 		}
+	}
+	// sliding-window scalar multiplication, also on points that are NOT on the curve
+	ff := bytes.Repeat([]byte{0xff}, 32)
+	scalars := [][]byte{make([]byte, 32), bigLE(big.NewInt(1), 32), bigLE(big.NewInt(15), 32), bigLE(big.NewInt(16), 32), bigLE(big.NewInt(0x5555), 32),
+		bigLE(lOrd, 32), bigLE(new(big.Int).Sub(lOrd, big.NewInt(1)), 32), ff, append(append([]byte{}, ff[:31]...), 0x7f), append(make([]byte, 31), 0x80),
+		bigLE(new(big.Int).Sub(new(big.Int).Lsh(big.NewInt(1), 128), big.NewInt(1)), 32)}
+	for _, k := range scalars {
+		g.do("smul " + hx.Hex(k) + " " + hx.Hex(smulBase(bigLE(big.NewInt(7), 32))))
+		g.do("smul " + hx.Hex(k) + " " + hx.Hex(r.Bytes(32)))
+	}
+	for i := 0; i < n; i++ {
+		k := r.Bytes(32)
+		switch r.Intn(4) {
+		case 0:
+			k[31] &= 0x7f
+		case 1:
+			k = append(r.Bytes(16), make([]byte, 16)...) // a 128-bit challenge
+		case 2:
+			for j := r.Intn(32); j < 32; j++ { // long runs of ones: carries in slide
+				k[j] = 0xff
+			}
+			k[31] &= byte(r.Pick(0x7f, 0xff, 0x3f))
+		}
+		a := r.Bytes(32) // about half of these are off the curve
+		if r.Chance(1, 3) {
+			kk := r.Bytes(32)
+			kk[31] &= 0x7f
+			a = smulBase(kk)
+		} else if r.Chance(1, 4) {
+			a = edges[r.Intn(len(edges))]
+		}
+		g.do("smul " + hx.Hex(k) + " " + hx.Hex(a))
 	}
 	for i := 0; i < n; i++ {
 		k := r.Bytes(32)
@@ -644,6 +708,41 @@ func (g *gen) qn(n int) {
 	}
 }
 
+// message construction: CalDeltaByTime, genVrfMsg (SHA3-256 chain), and headers checked with the
+// message the node builds itself from pre.Random and the block times.
+func (g *gen) messages(n int) {
+	r := g.r
+	for _, l := range []int{0, 1, 31, 32, 64, 135, 136, 137, 271, 272, 300} {
+		g.do("sha3 " + hx.Hex(r.Bytes(l)))
+	}
+	sec := int64(1000000000)
+	for _, ns := range []int64{0, 1, sec - 1, sec, 2*sec - 1, 2 * sec, 2*sec + 1, 4*sec - 1, 4 * sec, 7 * sec, -1, -sec, -2 * sec, -2*sec - 1, -5 * sec,
+		(1<<23-1)*sec + sec - 1, (1 << 23) * sec, 3600 * sec, 86400 * sec} {
+		g.do(fmt.Sprintf("cdelta %d", ns))
+	}
+	for i := 0; i < n; i++ {
+		g.do(fmt.Sprintf("cdelta %d", int64(r.U64()>>uint(20+r.Intn(44)))-int64(r.Intn(3))*sec))
+		g.do(fmt.Sprintf("vmsg %s %d", hx.Hex(r.Bytes(r.Pick(0, 32, 64, 64, 5))), r.Intn(8)-2))
+	}
+	for i := 0; i < n; i++ {
+		pk, sk := g.key()
+		rnd := r.Bytes(64)
+		ns := int64(r.Intn(9))*sec + int64(r.Intn(int(sec)))
+		delta := logical.CalDeltaByTime(time.Unix(1700000000, 0).Add(time.Duration(ns)), time.Unix(1700000000, 0))
+		if r.Chance(1, 5) {
+			delta += r.Pick(-1, 1) // proof for the wrong slot
+		}
+		pi, err := ed25519.ECVRFProve(sk, logical.VerifC16GenVrfMsg(rnd, delta))
+		if err != nil {
+			continue
+		}
+		t := uint64(r.Pick(1, 3, 5, 10))
+		var qn uint64
+		hx.Guard(func() string { _, qn = logical.VerifC16ValidateProve(pi, 10, 0, t); return "" })
+		g.do(fmt.Sprintf("vbt %d %s %s %s %d 10 0 %d %d %d", g.thr[0], hx.Hex(pk), hx.Hex(new(big.Int).SetBytes(pi).Bytes()), hx.Hex(rnd), ns, t, 70+qn, 70))
+	}
+}
+
 func (g *gen) headers(n int) {
 	r := g.r
 	for i := 0; i < n; i++ {
@@ -721,5 +820,6 @@ func main() {
 	g.qn(300 * scale)
 	g.vrf(60*scale, 20*scale)
 	g.headers(40 * scale)
+	g.messages(30 * scale)
 	fmt.Println("STATS " + out.StatsJSON())
 }
